@@ -592,7 +592,16 @@ def gen_special(rng, kind, family):
         # inline fragments: the harness computes a field's enclosing construct from the selection-set nesting
         spreads.append('... @defer(label: "%s") { %s }' % (lbl, body))
     req["doc"] = "{ item { id0: id " + " ".join(spreads) + " } }"
-    req["data"] = {"item": {"id": 1, "d": rng.randint(0, 2), "boom": rng.random() < 0.85, "kid": {"id": 2, "d": rng.randint(4, 10), "name": "slow"}, "kids": src(3)}}
+    boom = rng.random() < 0.85
+    kid = {"id": 2, "d": rng.randint(4, 10), "name": "slow"}
+    if boom and rng.random() < 0.5:
+        # the slow siblings never finish by themselves (they wait for something outside): once the shared field has
+        # failed and the stream has ended, only a cancellation by the execution can settle them - the harness does
+        # not release them in this scenario
+        req["doc"] = req["doc"].replace(": name }", ": hang }")
+        kid["hang"] = True
+        req["never_release"] = True
+    req["data"] = {"item": {"id": 1, "d": rng.randint(0, 2), "boom": boom, "kid": kid, "kids": src(3)}}
     return req
 
 
@@ -750,7 +759,7 @@ async def _run(sc, loop):
             else:
                 await settle(loop)
                 obs["stream_started"] = True
-                if not t.done() and kind == "none":
+                if not t.done() and kind == "none" and not sc.get("never_release"):
                     for g in (world.gate0, world.gate):  # unstopped run: let the hanging parts go
                         g.set()
                     await settle(loop)
@@ -836,7 +845,7 @@ async def _run(sc, loop):
     # ---- quiescence
     try:
         await settle(loop)
-        if kind == "none":
+        if kind == "none" and not sc.get("never_release"):
             for g in (world.gate0, world.gate):
                 g.set()
             await settle(loop)
